@@ -35,7 +35,9 @@ type Interp struct {
 	steps int
 	depth int
 	curFr *frame
+	cmpComparers    []*cmpComparer // cmp.Comparer options of the cmp.Equal call being modelled
 	cmpEqualMethods bool // set while go-cmp's Equal is being modelled: Equal methods of gribigo types are honoured
+	uniq       map[string]*value // unique.Make cells of this path, keyed by instantiation and value
 	atomicPtrs map[*value]value // contents of sync/atomic.Pointer[T] cells, keyed by receiver
 	strOrd     map[string][]string // this path's decided order facts between string terms: key < each element
 	strOrdConc map[string]string   // term key -> concrete string, for terms that are constants or were decided equal to one
